@@ -417,6 +417,8 @@ def coverage_case(cid="coverage"):
             M("route_in", [P("in", "HR32", "rt")]),
             M("arr_bundle", [P("in", "IPeer", "xs", 2), P("out", "uint32", "a"), P("out", "uint32", "b")]),
             M("obj_bundle", [P("in", "IPeer", "x"), P("out", "uint16", "a"), P("out", "uint64", "b"), P("out", "IPeer", "y")]),
+            M("pick", [P("in", "B24", "recs", "unbounded"), P("out", "IPeer", "newest")]),
+            M("pick2", [P("in", "uint16", "a", "unbounded"), P("in", "buffer", "raw"), P("out", "interface", "q")]),
             M("swap_arrays", [P("in", "IPeer", "xs", 2), P("in", "uint16", "n"), P("out", "IPeer", "ys", 2)]),
             M("attach", [P("in", "H24", "slot"), P("in", "IPeer", "extras", 2)]),
             M("detach", [P("out", "H24", "slot"), P("out", "IPeer", "extras", 2)]),
@@ -425,6 +427,14 @@ def coverage_case(cid="coverage"):
             M("mix", [P("in", "buffer", "a"), P("in", "uint32", "x"), P("in", "IPeer", "p"), P("out", "uint64", "y"), P("out", "buffer", "b"), P("out", "IPeer", "q")]),
             M("opt", [P("in", "uint32", "x"), P("out", "uint32", "y")], optional=True),
             dict(M("opt_impl", [P("in", "uint16", "x"), P("out", "uint64", "y")], optional=True), implemented=True),
+        ]},
+        # an unrelated interface whose methods have the names AND positions (op-codes) of ICov's
+        # first methods but other signatures (whatever is keyed by name or op must not leak)
+        {"k": "interface", "name": "ICov2", "base": None, "members": [
+            M("none", [P("in", "buffer", "name"), P("out", "IPeer", "handle")]),
+            M("prim_in", [P("out", "uint64", "size")]),
+            M("prim_out", [P("in", "uint64", "a"), P("in", "uint8", "b"), P("out", "S8", "s")]),
+            M("prims", [P("in", "IPeer", "p")]),
         ]},
         {"k": "interface", "name": "IDer", "base": "ICov", "members": [
             M("extra", [P("in", "uint32", "x"), P("in", "B24", "s"), P("out", "uint32", "y")]),
